@@ -6,7 +6,7 @@
    signer — the VM itself is not modelled here; the block the ledger accepts is C06's matter, here the
    conditions a packed prefix satisfies are proved. *)
 From NG Require Import Common.Tactics Admission.Fee Admission.FeeProofs Admission.Admit Admission.AdmitProofs
-  Admission.Conflicts Admission.Refresh Admission.VMScripts Admission.VMFeeProofs Admission.PackSize Admission.Examples Mempool.Model Mempool.Spec Mempool.Examples.
+  Admission.Conflicts Admission.Refresh Admission.RefreshBal Admission.FeeRounding Admission.VMScripts Admission.VMFeeProofs Admission.PackSize Admission.Examples Mempool.Model Mempool.Spec Mempool.Examples.
 From NG Require VM.Model.
 Open Scope N_scope.
 
@@ -152,6 +152,91 @@ Theorem C07_fee_threshold_exact : forall c t base shapes,
   (precheck c t = None <-> f_size t * c_fee_per_byte c + f_attr_fee t + calculated_fee base shapes <= f_netfee t).
 Proof. exact fee_threshold_exact. Qed.
 Print Assumptions C07_fee_threshold_exact.
+
+(* ---- the execution fee factor is ANY number of picoGAS. Since Faun the committee sets the factor in picoGAS, so it
+   need not be a whole number of Datoshi (300001). [base] is universally quantified in every exactness theorem above;
+   put together for one standard witness (signature account, or m-of-n with m <> 0): the VM's consumption, summed
+   in picoGAS and rounded up to Datoshi ONCE, is fee.Calculate; a budget of that many Datoshi passes the gas loop and
+   one Datoshi less does not - whatever the factor *)
+Theorem C07_fee_threshold_any_factor : forall base maxgas s,
+  s = (0, 0) \/ fst s <> 0 -> 0 < calc_pico base s -> calc_fee base s <= maxgas ->
+  pico_to_datoshi (witness_cost base s) = calc_fee base s
+  /\ verify_loop maxgas (calc_fee base s) [(witness_cost base s, true)] = true
+  /\ verify_loop maxgas (calc_fee base s - 1) [(witness_cost base s, true)] = false.
+Proof. exact fee_threshold_any_factor. Qed.
+Print Assumptions C07_fee_threshold_any_factor.
+
+(* a calculator that rounds every price component (the PUSHDATA part, the two count parts, the signature checks) to
+   Datoshi on its own never underestimates and is exact on whole-Datoshi factors (every chain until a committee sets
+   a fractional one) ... *)
+Theorem C07_componentwise_rounding_overestimates : forall base s, calc_fee base s <= calc_fee_componentwise base s.
+Proof. exact componentwise_overestimates. Qed.
+Print Assumptions C07_componentwise_rounding_overestimates.
+Theorem C07_componentwise_rounding_exact_on_whole_factors : forall d s,
+  calc_fee_componentwise (d * 10000) s = calc_fee (d * 10000) s.
+Proof. exact componentwise_exact_on_whole_factors. Qed.
+Print Assumptions C07_componentwise_rounding_exact_on_whole_factors.
+
+(* ... but is 1-2 Datoshi too high at the factor 300001: "its fee - 1" still passes the VM, the true threshold - 1 does not *)
+Theorem C07_componentwise_rounding_refuted :
+  calc_fee 300001 (0, 0) = 983524 /\ calc_fee_componentwise 300001 (0, 0) = 983525
+  /\ calc_fee 300001 (1, 1) = 983584 /\ calc_fee_componentwise 300001 (1, 1) = 983586
+  /\ calc_fee 300001 (2, 3) = 2950390 /\ calc_fee_componentwise 300001 (2, 3) = 2950392
+  /\ calc_fee 300001 (3, 4) = 3933914 /\ calc_fee_componentwise 300001 (3, 4) = 3933916
+  /\ verify_loop 150000000 (calc_fee_componentwise 300001 (0, 0) - 1) [(witness_cost 300001 (0, 0), true)] = true
+  /\ verify_loop 150000000 (calc_fee_componentwise 300001 (2, 3) - 1) [(witness_cost 300001 (2, 3), true)] = true
+  /\ verify_loop 150000000 (calc_fee 300001 (2, 3) - 1) [(witness_cost 300001 (2, 3), true)] = false.
+Proof. exact componentwise_rounding_refuted. Qed.
+Print Assumptions C07_componentwise_rounding_refuted.
+
+(* ---- the refresh after a block re-books the pool against the balances the block LEFT (a block moves GAS): the
+   invariant holds for the new balances, so every payer can pay for everything kept ... *)
+Theorem C07_refresh_restores_solvency : forall U, good_universe U -> forall bal bal' newfpb isok s,
+  bal_ok bal' -> Inv U bal s ->
+  let s' := remove_stale bal' newfpb isok s in
+  Inv U bal' s'
+  /\ (forall p, sum_fees p (vtxs s') <= bal' p)
+  /\ (forall x, In x (vtxs s') -> In x (vtxs s) /\ isok x = true).
+Proof. exact refresh_restores_solvency. Qed.
+Print Assumptions C07_refresh_restores_solvency.
+
+(* ... the block packed next is payable under those balances ... *)
+Theorem C07_pack_after_refresh_payable : forall U, good_universe U -> forall bal bal' newfpb isok s max_tx max_size max_sysfee hdr0,
+  bal_ok bal' -> Inv U bal s ->
+  let s' := remove_stale bal' newfpb isok s in
+  let b := apply_policy_real max_tx max_size max_sysfee hdr0 (vtxs s') in
+  (forall p, sum_fees p b <= bal' p)
+  /\ NoDup (map tid b)
+  /\ (forall x y, In x b -> In y b -> ~ In (tid x) (confl y))
+  /\ (forall x, In x b -> In x (vtxs s) /\ isok x = true).
+Proof. exact pack_after_refresh_payable. Qed.
+Print Assumptions C07_pack_after_refresh_payable.
+
+(* ... and so for whole histories: submissions, removals and blocks (any filter, any new balances) in any order; the
+   block packed from the pool at any moment is payable under the balances of that moment *)
+Theorem C07_pack_history_payable : forall U, good_universe U -> forall capacity bal0 ops max_tx max_size max_sysfee hdr0,
+  bal_ok bal0 -> Forall (op_ok U) ops ->
+  let st := run fixed_cfg (mkState (new_pool capacity) bal0) ops in
+  let b := apply_policy_real max_tx max_size max_sysfee hdr0 (vtxs (st_pool st)) in
+  (forall p, sum_fees p b <= st_bal st p)
+  /\ NoDup (map tid b)
+  /\ (forall x y, In x b -> In y b -> ~ In (tid x) (confl y)).
+Proof. exact pack_history_payable. Qed.
+Print Assumptions C07_pack_history_payable.
+
+(* a refresh that only re-sums the fees, one that checks only the first transaction of every payer, and one that
+   checks against the balances from before the block keep 300 of fees against the 150 GAS the block left *)
+Theorem C07_refresh_variants_refuted :
+  sum_fees (2, 0) rb_pool = 400 /\ rb_bal (2, 0) = 400
+  /\ map tid (vtxs (remove_stale rb_bal' 0 rb_isok rb_state)) = [1]
+  /\ map tid (refresh_resum rb_bal' rb_isok rb_pool) = [1; 2; 3]
+  /\ rb_bal' (2, 0) < sum_fees (2, 0) (refresh_resum rb_bal' rb_isok rb_pool)
+  /\ map tid (refresh_first_only rb_bal' rb_isok rb_pool) = [1; 2; 3]
+  /\ rb_bal' (2, 0) < sum_fees (2, 0) (refresh_first_only rb_bal' rb_isok rb_pool)
+  /\ map tid (vtxs (remove_stale rb_bal 0 rb_isok rb_state)) = [1; 2; 3]
+  /\ rb_bal' (2, 0) < sum_fees (2, 0) (vtxs (remove_stale rb_bal 0 rb_isok rb_state)).
+Proof. exact refresh_variants_refuted. Qed.
+Print Assumptions C07_refresh_variants_refuted.
 
 (* refresh after a block (IsTxStillRelevant as the filter of RemoveStale): witnesses are seen through an oracle
    indexed by the chain state; the refresh re-verifies every transaction that carries a witness other than a
